@@ -38,11 +38,11 @@ type FixThrice struct {
 	D3
 }
 type FixUnexpEmbed struct {
-	inner1           // unexported struct by value: inlined
-	*Inner2          // exported pointer: inlined, allocated on decode
-	myint            // unexported non struct: ignored
-	MyInt            // exported non struct: field "MyInt"
-	Z         int
+	inner1  // unexported struct by value: inlined
+	*Inner2 // exported pointer: inlined, allocated on decode
+	myint   // unexported non struct: ignored
+	MyInt   // exported non struct: field "MyInt"
+	Z       int
 }
 type fixPtrInner struct{ Q int }
 type FixUnexpPtrEmbed struct {
@@ -50,7 +50,7 @@ type FixUnexpPtrEmbed struct {
 	R            int
 }
 type FixIface struct {
-	io.Reader        // interface: key "Reader", not inlined
+	io.Reader // interface: key "Reader", not inlined
 	N         int
 }
 type TArrIn struct {
@@ -120,6 +120,7 @@ type FixJSONFallback struct {
 	H int `json:",omitempty"`
 	I int `codec:"i,x,omitempty,y"`
 }
+
 // values larger than the 1024-byte zero block the default build's emptiness test compares against
 type BigS struct {
 	A    [130]uint64
@@ -140,6 +141,7 @@ type FixBigAll struct {
 	P       [129]uint64
 	Q       BigS
 }
+
 // pointer-shaped structs (one pointer or map): held directly in a reflect.Value when encoded by value
 type FixPtrShaped struct {
 	C *struct{ A int } `codec:"c,omitempty"`
@@ -154,6 +156,27 @@ type FixShapedIn struct {
 	P FixPtrShaped `codec:"p,omitempty"`
 	Q FixMapShaped `codec:"q,omitempty"`
 	R [1]*int      `codec:"r,omitempty"`
+}
+
+// omitempty pointer fields: a non-nil pointer to a zero value is NOT empty
+type FixPtrZero struct {
+	I *int     `codec:"i,omitempty"`
+	S *string  `codec:"s,omitempty"`
+	B *bool    `codec:"b,omitempty"`
+	F *float64 `codec:"f,omitempty"`
+	T *struct {
+		A int
+		B string
+	} `codec:"t,omitempty"`
+	PP **int  `codec:"pp,omitempty"`
+	L  *[]int `codec:"l,omitempty"`
+	N  int    `codec:"n,omitempty"`
+}
+type FixPtrZeroAll struct {
+	_struct bool `codec:",omitempty"`
+	I       *int
+	T       *struct{ A int }
+	U       *uint8
 }
 type FixEsc struct {
 	A int `codec:"a<b"`
@@ -183,6 +206,7 @@ var fixedTypes = []reflect.Type{
 	reflect.TypeOf(inner1{}), reflect.TypeOf(Inner2{}), reflect.TypeOf(struct{}{}),
 	reflect.TypeOf(FixBig{}), reflect.TypeOf(FixBigArr{}), reflect.TypeOf(FixBigAll{}), reflect.TypeOf(BigS{}),
 	reflect.TypeOf(FixPtrShaped{}), reflect.TypeOf(FixMapShaped{}), reflect.TypeOf(FixShapedOuter{}), reflect.TypeOf(FixShapedIn{}),
+	reflect.TypeOf(FixPtrZero{}), reflect.TypeOf(FixPtrZeroAll{}),
 }
 
 var shapedTypes = []reflect.Type{
@@ -467,7 +491,9 @@ func fillVal(r *vh.Rng, v reflect.Value, o valOpts, depth int) {
 			return
 		}
 		p := reflect.New(t.Elem())
-		fillVal(r, p.Elem(), o, depth+1)
+		if !r.Chance(1, 3) { // else: a NON-nil pointer to the zero value (not empty: only nil pointers are)
+			fillVal(r, p.Elem(), o, depth+1)
+		}
 		v.Set(p)
 	case reflect.Interface:
 		if zeroish || !o.iface || t.NumMethod() != 0 {
